@@ -5,7 +5,7 @@ CONSTANTS
   K1s = {2, 3}
   Counts = {0, 1, 3}
   NClasses = 4
-  Shifts <- ShiftsMC
+  Shifts <- ShiftsAll
 INVARIANT Additive
 INVARIANT Proportional
 INVARIANT OrderIndependent
